@@ -432,6 +432,10 @@ def eigh(a):
 
 @eigh.register(FermionicArray)
 def eigh_fermionic(a):
+    if a.phases:
+        # the raw blocks are decomposed, so any lazy phases must be in them
+        a = a.phase_sync()
+
     eigenvalues, eigenvectors = eigh.dispatch(AbelianArray)(a)
 
     if not a.indices[1].dual:
@@ -483,6 +487,13 @@ def solve(a, b):
 
 @solve.register(FermionicArray)
 def solve_fermionic(a, b):
+    # the raw blocks are used, so any lazy phases must be in them, n.b. the
+    # solution is also built from `b`, whose phase table is keyed differently
+    if a.phases:
+        a = a.phase_sync()
+    if b.phases:
+        b = b.phase_sync()
+
     x = solve.dispatch(AbelianArray)(a, b)
 
     if x.indices[0].dual:
